@@ -112,6 +112,9 @@ func checkIndex(c *enum.Ctx, k kase) {
 	// the raw frequency table before Build, read before anything else has looked at the index
 	if nw := 1 << (2 * uint(k.K)); nw <= 4096 {
 		fg := ki.Finger()
+		if len(fg) < nw {
+			fail("Finger/before-build", "Finger() has %d entries straight after New, there are %d words", len(fg), nw)
+		}
 		for w := 0; w < nw; w++ {
 			if got := ki.FingerAt(w); got != len(byWord[w]) {
 				fail("FingerAt/before-build", "FingerAt(%s) = %d straight after New, the word occurs %d times in %q", wordString(w, k.K, k.RNA), got, len(byWord[w]), k.Seq)
@@ -128,6 +131,16 @@ func checkIndex(c *enum.Ctx, k kase) {
 	if !ok {
 		fail("KmerFrequencies", "not available before Build")
 		return
+	}
+	if nf, ok := ki.NormalisedKmerFrequencies(); !ok || len(nf) != len(byWord) {
+		fail("NormalisedKmerFrequencies", "%d words in the normalised table (ok=%v), %d occur in %q", len(nf), ok, len(byWord), k.Seq)
+	} else {
+		for w, ps := range byWord {
+			if want := float64(len(ps)) / float64(len(k.Seq)); nf[kmerindex.Kmer(w)] != want {
+				fail("NormalisedKmerFrequencies", "normalised frequency of %s is %v, it occurs %d times in %d letters", wordString(w, k.K, k.RNA), nf[kmerindex.Kmer(w)], len(ps), len(k.Seq))
+				break
+			}
+		}
 	}
 	if len(freq) != len(byWord) {
 		fail("KmerFrequencies", "%d distinct k-mers in the table, %d occur in %q", len(freq), len(byWord), k.Seq)
